@@ -58,15 +58,18 @@ ASSUMPTIONS = [
 SOURCES = (
     # name, has-ticket note
     'bugfix/TEST-1-x', 'bugfix/test-1-x', 'bugfix/OTHER-2-y',
-    'feature/TEST-1-z', 'dependabot/lodash-4.17.13',
+    'feature/TEST-1-z', 'dependabot/lodash-4.17.13', 'bug/TEST-1-w',
     'bugfix/plainname', 'bugfix/TEST-', 'bugfix/-12', 'bugfix/TEST1',
     'bugfix/my.TEST-1',
 )
-N_TICKET = 5  # the first five name a ticket
+N_TICKET = 6  # the first six name a ticket
 TYPES = ('Bug', 'Story', 'Epic')
 PREFIXES = {'Story': 'feature', 'Bug': 'bugfix', 'Improvement': 'improvement'}
 CONFIGS = ('TEST', 'OTHER+TEST', 'nokeys', 'noemail', 'nourl')
-BYPASS_PREFIXES = ((), ('dependabot',), ('dependabot', 'feature'))
+# 'bug' and 'bugfix' are both registered prefixes and one is a string prefix
+# of the other: the bypass must compare whole prefixes
+BYPASS_PREFIXES = ((), ('dependabot',), ('dependabot', 'feature'), ('bug',),
+                   ('bugfix',))
 BYPASS = ('none', 'comment', 'author', 'cmdline', 'other_option')
 TICKETLESS = ('none', 'last', 'all')
 
